@@ -125,13 +125,13 @@ C08_ExceptionDatesKeepFileOrder(feed, r) ==
 (* ------------------------------------------------------------------ C09 *)
 NoWarnings(r) == [r EXCEPT !.warnings = <<>>]
 C09_Inert(r, rBase) == NoWarnings(r) = NoWarnings(rBase)
-C09_WarningsDescribeTheRow(feed, r, warnOk) ==
+C09_WarningsDescribeTheRow(feed, r, acc, warnOk) ==
     /\ Len(warnOk) = Len(r.warnings)
     /\ \A i \in DOMAIN r.warnings :
-         \/ (* a rejected row *)
-            /\ r.warnings[i].file = "agency.txt"
-            /\ InRange(r.warnings[i].row, Rows(feed, "agency.txt"))
-            /\ Missing(Rows(feed, "agency.txt")[r.warnings[i].row], {"agency_name", "agency_url", "agency_timezone"})
+         \/ (* a warning about a row of any file: that row exists, produced no entity, and the warning shows its cells *)
+            /\ r.warnings[i].file \in Range(Files)
+            /\ InRange(r.warnings[i].row, Rows(feed, r.warnings[i].file))
+            /\ r.warnings[i].row \notin Range(acc[r.warnings[i].file])
             /\ warnOk[i]
          \/ (* the header itself lacks a required column: the warning is about row 0 and shows the header *)
             /\ r.warnings[i].file = "agency.txt:warnings.MissingColumns" /\ r.warnings[i].row = 0
@@ -184,7 +184,16 @@ C11_Zone(feed, r) ==
 (* ------------------------------------------------------------------ C01 *)
 (* on a well-formed feed every row yields one entity and every field is the decoded cell under its header: *)
 (* that is what the row steps of GtfsStatic compute, so the clause is equality with the model's result.    *)
-C01_Transcribed(feed, inherit, r) == r = Result(ParseFeed(feed, inherit))
+(* The order of Static.Services is not fixed by any property: both sides are compared with their services sorted *)
+(* by id (one service per id) and the trips' service links renumbered accordingly.                              *)
+SortServices(r) ==
+    LET ids == SortSet({r.services[i].id : i \in DOMAIN r.services}, LAMBDA a, b : a < b)
+        OldIdx(k) == CHOOSE i \in DOMAIN r.services : r.services[i].id = ids[k]
+        NewIdx(i) == IF InRange(i, r.services) THEN CHOOSE k \in DOMAIN ids : ids[k] = r.services[i].id ELSE i
+    IN IF Len(ids) # Len(r.services) THEN r
+       ELSE [r EXCEPT !.services = [k \in DOMAIN ids |-> r.services[OldIdx(k)]],
+                      !.trips = [t \in DOMAIN r.trips |-> [r.trips[t] EXCEPT !.service = NewIdx(@)]]]
+C01_Transcribed(feed, inherit, r) == SortServices(r) = SortServices(Result(ParseFeed(feed, inherit)))
 C01_OneEntityPerRow(feed, r) ==
     /\ Len(r.agencies) = Len(Rows(feed, "agency.txt")) /\ Len(r.routes) = Len(Rows(feed, "routes.txt"))
     /\ Len(r.stops) = Len(Rows(feed, "stops.txt")) /\ Len(r.transfers) = Len(Rows(feed, "transfers.txt"))
